@@ -1000,7 +1000,7 @@ def corpus_all(entry_name):
 
 TRUSTED = [
     "Coq 8.16.1 kernel (coqc, vm_compute; no native_compute).  The 18 theorems of C12/Properties.v and the 4 of "
-    "C12/TieProperties.v are closed under the global context (no axioms); the 4 of C12/SepProperties.v use only the standard "
+    "C12/TieProperties.v are closed under the global context (no axioms); the 5 of C12/SepProperties.v use only the standard "
     "library's axioms of the reals (ClassicalDedekindReals.sig_forall_dec, sig_not_dec, functional_extensionality_dep, "
     "Classical_Prop.classic); the per-case interval lemmas additionally the primitive-float/int specifications used by Interval",
     "hand-written model C12/Model.v of Matcher::init_hmap / Matcher::match (htmc.cc) and HTM.match / Matcher.match / read_pairs "
@@ -1058,8 +1058,8 @@ def run(ctx, replay=None):
     core.proof_step(ctx, "C12", core.ALLOW_DISCRETE)
     extra_theorems(ctx, "TieProperties", core.ALLOW_DISCRETE, 4,
                    "tie of C12/Model.v to the regenerated C12/Gen.v (decisions, loops, size checks, file format of the source)")
-    extra_theorems(ctx, "SepProperties", core.ALLOW_REALS, 4,
-                   "C12/SepProperties.v over the regenerated C12/GenR.v (gcirc is the true separation; searched cap contains the search cap)")
+    extra_theorems(ctx, "SepProperties", core.ALLOW_REALS, 5,
+                   "C12/SepProperties.v over the regenerated C12/GenR.v (gcirc is the true separation; every point within the radius lies in the searched cap)")
     # 3. the real code against the model and the verified checker
     if replay is not None and replay.get("entry") == "sepcert":
         core.coq_make(["theories/C12/SepCert.vo"])
